@@ -18,9 +18,17 @@ theorem isStale_iff (a : Attempt) :
 theorem pipelineLoop_eq (o : Oracle) (r : Nat) : pipelineLoop o r r = loop 5 o r := by
   fun_induction loop 5 o r <;> (rw [pipelineLoop]; simp_all) <;> omega
 
-/-- the loop as written in `reuse_transport.go` (`retry <= 5`) is `loop 6` -/
-theorem reuseLoop_eq (o : Oracle) (r : Nat) : reuseLoop o r r = loop 6 o r := by
-  fun_induction loop 6 o r <;> (rw [reuseLoop]; simp_all) <;> omega
+/-- the loop as written in `reuse_transport.go` (`retry <= 5`, the pool consulted only while
+    `retry <= 5`) is `loop 6` over the attempts as they really happen -/
+theorem reuseLoop_eq (o : Oracle) (r : Nat) : reuseLoop o r r = loop 6 (reuseEff o) r := by
+  fun_induction loop 6 (reuseEff o) r <;> (rw [reuseLoop]; simp_all [reuseEff])
+  case case4 r _ hlt _ _ _ ih =>
+    have h5 : r ≤ 5 := by omega
+    simp_all
+  case case5 r _ hlt _ _ h =>
+    have h5 : r ≤ 5 := by omega
+    simp_all
+  case case6 r _ hge _ _ => intro h; omega
 
 /-- the loop as written in `quic_transport.go` is `loop 5` -/
 theorem quicLoop_eq (o : Oracle) (r : Nat) : quicLoop o r r = loop 5 o r := by
@@ -86,6 +94,23 @@ theorem loop_skip_stale (lim : Nat) (o : Oracle) (r k : Nat) (hk : r + k ≤ lim
     rw [loop_stale_step lim o r (hs r (Nat.le_refl _) (by omega)) (by omega)]
     rw [ih (r + 1) (by omega) (fun i h1 h2 => hs i (by omega) (by omega))]
     congr 1
+    omega
+
+/-- the last attempt, if within the budget, is not a stale one -/
+theorem loop_final_not_stale (lim : Nat) (o : Oracle) (r j : Nat) (hr : r ≤ j) (hj : j < lim)
+    (hn : (loop lim o r).n = j + 1) : isStale (o j) = false := by
+  cases hs : isStale (o j) with
+  | false => rfl
+  | true =>
+    exfalso
+    have h1 : loop lim o r = loop lim o (r + (j - r)) :=
+      loop_skip_stale lim o r (j - r) (by omega)
+        (fun i h1 h2 => (loop_nonfinal lim o r i h1 (by rw [hn]; omega)).1)
+    have hj' : r + (j - r) = j := by omega
+    rw [hj'] at h1
+    have h2 := loop_stale_step lim o j hs hj
+    have h3 := loop_n_gt lim o (j + 1)
+    rw [h1, h2] at hn
     omega
 
 /-- a healthy attempt ends the loop with its reply -/
